@@ -654,6 +654,20 @@ pub fn run(run: &Run) {
             faults.push(Fault::Autocorrect(s[..i].to_vec()));
         }
     }
+    // documents as other programs write them: with a UTF-8 byte order mark, in UTF-16, with leading white space -
+    // again cut at every byte (an interrupted save can end inside the mark)
+    let foreign: Vec<Vec<u8>> = vec![
+        [&[0xEF, 0xBB, 0xBF][..], b"{\"abc\":\"kkk\",\"onno\":\"Onyo\"}"].concat(),
+        [&[0xFF, 0xFE][..], &"{\"abc\":\"kkk\"}".encode_utf16().flat_map(|u| u.to_le_bytes()).collect::<Vec<u8>>()[..]].concat(),
+        b" \n\t{ \"abc\" : \"kkk\" }\n".to_vec(),
+        [&[0xEF, 0xBB, 0xBF][..], &[0xEF, 0xBB, 0xBF][..], b"{}"].concat(),
+    ];
+    for s in &foreign {
+        for i in 0..=s.len() {
+            faults.push(Fault::Autocorrect(s[..i].to_vec()));
+            faults.push(Fault::Selection(s[..i].to_vec()));
+        }
+    }
     for d in malformed_corpus().into_iter().chain(odd_content()) {
         faults.push(Fault::Selection(d.clone()));
         faults.push(Fault::Autocorrect(d));
